@@ -68,4 +68,14 @@ PROPS = {
         bounds=dict(quick="P<=2 pipelines x 2 nodes; list length<=5", thorough="P<=3 x 2..3 nodes"),
         trusted_base=COMMON_TRUST,
     ),
+    "C11": dict(
+        level="other",
+        explanation="Inductive step of gated.Filter.Process / FlushAll / Close (with the real container/list code) from an arbitrary filter state under the representation invariant (<=G open groups with symbolic ids, expiry instants and 1..E events each), with symbolic clock, flush flag, compose outcome (plain / Gateable / error) and send outcome; ghost logs of compose and send calls decide exactly-once, order and whole-group composition.",
+        jobs=[dict(pkg="./filters/gated", harness=["gated/gated.go"], entries=r"^H_C11_|^H_C17_", params=dict(quick=dict(G=2, E=2), thorough=dict(G=3, E=2)), shards=dict(quick=4, thorough=16))],
+        must_reach=["C11.process.flush", "C11.process.gated", "C11.process.error", "C11.passthrough.plain", "C11.passthrough.noid", "C17.flushall.ok", "C17.flushall.error"],
+        bounds=dict(quick="<=2 open groups x 1..2 events", thorough="<=3 groups x 1..2 events"),
+        assumptions=["A-gated-mono: NowFunc non-decreasing and Expiration constant while groups are open (expiry instants non-decreasing along the list)"],
+        trusted_base=COMMON_TRUST,
+    ),
 }
+PROPS["C17"] = dict(PROPS["C11"], must_reach=["C17.flushall.ok", "C11.process.gated"])
